@@ -158,6 +158,24 @@ SINGLES = [
     (H_ + "declarations:\n- decl: void f(int *a +rank(1), int n +implied(size(a+1)))\n", None),
     (H_ + "declarations:\n- decl: void f(char *a, int n +implied(len(a//2)))\n", None),
     (H_ + "declarations:\n- decl: void f(char *a, int n +implied(len_trim(1)))\n", None),
+    # typemap entries whose fields are not a mapping
+    (H_ + "typemap:\n- type: int\n  fields: text\n" + "declarations:\n- decl: void f(int a)\n", None),
+    (H_ + "typemap:\n- type: int\n  fields: [a, b]\n" + "declarations:\n- decl: void f(int a)\n", None),
+    (H_ + "typemap:\n- type: int\n  fields: 3\n" + "declarations:\n- decl: void f(int a)\n", None),
+    (H_ + "typemap:\n- type: NewT\n  fields: text\n" + "declarations:\n- decl: void f(int a)\n", None),
+    (H_ + "typemap:\n- type: NewT\n  fields: [a]\n" + "declarations:\n- decl: void f(int a)\n", None),
+    (H_ + "typemap:\n- type: int\n  fields:\n" + "declarations:\n- decl: void f(int a)\n", None),
+    # the arguments re-declared by a fortran_generic entry are validated like the function's own
+    (H_ + "declarations:\n- decl: void f(double *a +rank(1), int n +implied(size(a)))\n  fortran_generic:\n"
+          "  - decl: (float *a +rank(1), int n +implied(size(zz)))\n", "reject"),
+    (H_ + "declarations:\n- decl: void f(double *a +rank(1), int n +implied(size(a)))\n  fortran_generic:\n"
+          "  - decl: (float *a +rank(1), int n +implied(size(a,1,2)))\n", "reject"),
+    (H_ + "declarations:\n- decl: void f(double *a +rank(1), int n +implied(size(a)))\n  fortran_generic:\n"
+          "  - decl: (float *a +rank(1), int n +implied)\n", None),
+    (H_ + "declarations:\n- decl: void f(double *a +rank(1), int n +implied(size(a)))\n  fortran_generic:\n"
+          "  - decl: (float *a +rank(1), int n +implied(size(a+1)))\n", None),
+    (H_ + "declarations:\n- decl: void f(double *a +rank(1), int n +implied(size(a)))\n  fortran_generic:\n"
+          "  - decl: (float *a +rank(1), int n +implied(size(a)))\n  - decl: (double *a +rank(1), int n +implied(size(a)))\n", "accept"),
     # implied with a wrong number of arguments
     (H_ + "declarations:\n- decl: void f(int *a +rank(1), int n +implied(size()))\n", None),
     (H_ + "declarations:\n- decl: void f(char *a, int n +implied(len()+1))\n", None),
